@@ -9,7 +9,7 @@ import time
 
 ROOT = os.path.dirname(os.path.dirname(os.path.abspath(__file__)))
 SEED = os.path.join(ROOT, 'seeded')
-ALSO = {'C17-m7': ['C02'], 'C17-m8': ['C03'], 'C15-m7': ['C16'], 'C04-m8': ['C03'], 'C03-m7': ['C17'], 'C05-m4': ['C13', 'C16'], 'C16-m7': ['C14'], 'C13-m7': ['C06'], 'C08-m8': ['C17', 'C13'], 'C01-m8': ['C02'], 'C14-m8': ['C16'], 'C01-m7': ['C17'], 'C15-m5': ['C01', 'C02'], 'C15-m6': ['C14'], 'C17-m5': ['C06'], 'C08-m6': ['C07'], 'C04-m6': ['C03'], 'C17-m3': ['C16'], 'C17-m4': ['C13'], 'C16-m4': ['C04'], 'C13-m4': ['C06'], 'C04-m4': ['C17'], 'C02-m4': ['C01'], 'C04-m2': ['C13'], 'C05-m1': ['C03'], 'C08-m2': ['C07'], 'C13-m2': ['C06'], 'C17-m1': ['C06'], 'C01-m2': ['C17'], 'C01-m1': ['C02'], 'C02-m1': ['C01'], 'C17-m2': ['C02']}
+ALSO = {'C15-m9': ['C02', 'C01'], 'C15-m10': ['C14'], 'C05-m6': ['C02'], 'C03-m10': ['C17'], 'C17-m7': ['C02'], 'C17-m8': ['C03'], 'C15-m7': ['C16'], 'C04-m8': ['C03'], 'C03-m7': ['C17'], 'C05-m4': ['C13', 'C16'], 'C16-m7': ['C14'], 'C13-m7': ['C06'], 'C08-m8': ['C17', 'C13'], 'C01-m8': ['C02'], 'C14-m8': ['C16'], 'C01-m7': ['C17'], 'C15-m5': ['C01', 'C02'], 'C15-m6': ['C14'], 'C17-m5': ['C06'], 'C08-m6': ['C07'], 'C04-m6': ['C03'], 'C17-m3': ['C16'], 'C17-m4': ['C13'], 'C16-m4': ['C04'], 'C13-m4': ['C06'], 'C04-m4': ['C17'], 'C02-m4': ['C01'], 'C04-m2': ['C13'], 'C05-m1': ['C03'], 'C08-m2': ['C07'], 'C13-m2': ['C06'], 'C17-m1': ['C06'], 'C01-m2': ['C17'], 'C01-m1': ['C02'], 'C02-m1': ['C01'], 'C17-m2': ['C02']}
 
 
 def sh(cmd, **kw):
